@@ -256,7 +256,50 @@ def rule_cbzero(ctx, rep, rule="R-CBZERO"):
                     rep.ok(rule, ik, cfg=tag)
                 else:
                     e = st["e"]
-                    rep.bad(rule, ik, path_report(F, b, st["p"], "the callback is invoked while the count word is %+d and the number of live owners %+d away from the entry state: a borrow changes the count while in use" % (dcount(st["p"].events[[x is e for x in st["p"].events].index(True)]["run"]) if any(x is e for x in st["p"].events) else 0, 0)), "%s:%s" % (e["span"]["file"], e["span"]["line"]), tag)
+                    rep.bad(rule, ik, path_report(F, b, st["p"], "the callback is invoked in a state where the count word and the number of live owning handles differ from the entry state (a transient handle that is not parked, or a count taken for the duration of the borrow): a borrow must not change the count, not even while it is in use, and an unwinding callback must not release anything"), "%s:%s" % (e["span"]["file"], e["span"]["line"]), tag)
+    return n
+
+
+def rule_release_retarget(ctx, rep, rule="R-RELEASE-RETARGET"):
+    """A function that, through a `&mut Handle` parameter, first gives up the handle's reference and then stores a new pointer into
+    it (a hand-written `clone_from`, `replace`, ...) must store the new pointer on the unwinding exits too: the release runs a
+    payload destructor, and if that panics before the store the caller keeps a handle to a block it no longer owns (released a
+    second time when the handle is dropped). The built-in assignment `*this = new` stores on both exits."""
+    n = 0
+    for tag, F, E in ctx.each():
+        A = analysis(tag, F, E)
+        for b in F.body_list:
+            if b["kind"] not in ("Fn", "AssocFn") or b["key"] in A.errors:
+                continue
+            if not any(F.ty(t)["k"] == "ref" and F.ty(t)["mut"] and F.tokens(F.ty(t)["t"])[0] > 0 for t in b.get("inputs", [])):
+                continue
+            key = b["key"]
+            # normal paths on which a release (dec) is followed by a retargeting store
+            shape = False
+            for p in A.paths.get(key, []):
+                if p.exit != "ret":
+                    continue
+                i_dec = next((i for i, e in enumerate(p.events) if vget(e["vec"], "dec") > 0), None)
+                if i_dec is not None and any(vget(e["vec"], "retgt") > 0 or e["kind"] == "RETARGET" for e in p.events[i_dec:]):
+                    shape = True
+                    break
+            if not shape:
+                continue
+            n += 1
+            bad = None
+            for p in A.paths.get(key, []):
+                if p.exit != "unw" or (p.origin or "std") not in ("user", "panic"):
+                    continue
+                i_dec = next((i for i, e in enumerate(p.events) if vget(e["vec"], "dec") > 0), None)
+                if i_dec is None:
+                    continue
+                if not any(vget(e["vec"], "retgt") > 0 or e["kind"] == "RETARGET" for e in p.events[i_dec:]):
+                    bad = p
+                    break
+            if bad is not None:
+                rep.bad(rule, key, path_report(F, b, bad, "the handle behind the `&mut` parameter gives up its reference and the release can unwind (a payload destructor panics) before the new pointer is stored: the caller is left with a handle to a block it no longer owns"), F.loc(b), tag)
+            else:
+                rep.ok(rule, key, cfg=tag)
     return n
 
 
@@ -591,7 +634,10 @@ def free_sites(F):
                 path = r["def"] if isinstance(r, dict) else t.get("callee", "")
                 cls, _ = model.classify(path)
                 if cls == model.DEALLOC:
-                    out.append((b, bi, t, "dealloc"))
+                    from . import storage
+
+                    if not (t.get("args") and storage.foreign_storage(F, b, t["args"][0])):
+                        out.append((b, bi, t, "dealloc"))
                 elif cls == model.BOXDROP and isinstance(r, dict):
                     x = [a["t"] for a in r["args"] if "t" in a]
                     if x and F.is_adt(x[0], F.inner_path):
